@@ -20,6 +20,9 @@ pub enum Stream {
     /// element 0 occurs on the first slot after every window end, noise elsewhere
     Boundary { alphabet: u32, len: u32, seed: u64, offset: u8 },
     Blocks { alphabet: u32, block: u32, len: u32 },
+    /// `noise` distinct elements (all legitimately pruned; more than 2^16 windows for small widths), then `heavy`
+    /// copies of one element interleaved with a little noise
+    LateHeavy { noise: u32, heavy: u32 },
 }
 
 #[derive(Clone, Debug, Serialize, Deserialize)]
@@ -48,6 +51,7 @@ fn materialise(s: &Stream, width: usize) -> Vec<u64> {
                 .collect()
         }
         Stream::Distinct { len } => (0..*len as u64).collect(),
+        Stream::LateHeavy { noise, heavy } => (0..*noise as u64).chain((0..*heavy as u64).map(|i| if i % 7 == 6 { 1_000_000_000 + i } else { u64::MAX })).collect(),
         Stream::Boundary { alphabet, len, seed, offset } => {
             let mut g = stat::SplitMix64(*seed);
             let w = width.max(1);
@@ -213,6 +217,7 @@ impl Check for C09 {
             .class_if(windows >= 2, "two_windows")
             .class_if(readded, "pruned_and_readded")
             .class_if(matches!(c.stream, Stream::Boundary { .. }), "boundary_adversary")
+            .class_if(matches!(c.stream, Stream::LateHeavy { .. }), "heavy_hitter_after_65536_windows")
             .class_if(matches!(c.ctor, Ctor::Epsilon(_)), "with_epsilon");
         info.inner_evals = checked;
         Verdict::Pass(info)
@@ -250,6 +255,16 @@ fn strategy(tier: Tier) -> BoxedStrategy<Case> {
             thresholds.push(eps);
             thresholds.push((2.0 * eps).min(1.0));
             Case { ctor, stream, thresholds }
+        })
+        .boxed()
+}
+
+/// More than 2^16 windows of noise, then a heavy hitter (counters of window numbers must not be narrow).
+fn late_heavy_strategy() -> BoxedStrategy<Case> {
+    (2usize..=4, 0u32..40, 20_000u32..90_000)
+        .prop_map(|(w, extra, heavy)| {
+            let noise = (65_536 + extra) * w as u32 + extra % w as u32;
+            Case { ctor: Ctor::Width(w), stream: Stream::LateHeavy { noise, heavy }, thresholds: vec![0.1, 0.2, 1.0 / w as f64, (2.0 / w as f64).min(1.0)] }
         })
         .boxed()
 }
@@ -299,7 +314,7 @@ pub fn checks() -> Vec<Box<dyn DynCheck>> {
 }
 
 pub fn run(ctx: &Ctx) {
-    ctx.set_rule("exhaustive: every stream over a 3-element alphabet up to length 10 (thorough: 13, and 4 elements up to length 10) for widths 1..=5 (6), every prefix. generated: with_epsilon(e) / with_width(w) (rarely epsilon next to 1, next to 0.5 and within 2 ulps of 1/k; rarely windows that never end: width 2^62, usize::MAX, epsilon 1e-9, 1e-15) x stream family (explicit shrinkable item lists, uniform, zipf, all-distinct, boundary adversary whose occurrences sit on the first slots after each window end, blocks) x thresholds {epsilon, 2*epsilon, 0, .1, .5, 1, random}; checked at every prefix up to 400, around every window end up to 4000 and at geometric prefixes beyond. Oracle: reference Manku-Motwani lossy counter + exact counts: n(), add's return value, query(0) == reference table, no miss (true >= s*n and > eps*n), no intruder (true < (s-eps)*n), table size <= width*(H(ceil(n/width))+1). Non-trivial: the stream crosses >= 2 window ends and an element was pruned and later re-added. Distinct = (width, stream). evaluations = cases + prefixes checked.");
+    ctx.set_rule("exhaustive: every stream over a 3-element alphabet up to length 10 (thorough: 13, and 4 elements up to length 10) for widths 1..=5 (6), every prefix. generated: with_epsilon(e) / with_width(w) (rarely epsilon next to 1, next to 0.5 and within 2 ulps of 1/k; rarely windows that never end: width 2^62, usize::MAX, epsilon 1e-9, 1e-15) x stream family (explicit shrinkable item lists, uniform, zipf, all-distinct, boundary adversary whose occurrences sit on the first slots after each window end, blocks; rarely more than 2^16 windows of distinct noise for width 2..4 followed by a heavy hitter) x thresholds {epsilon, 2*epsilon, 0, .1, .5, 1, random}; checked at every prefix up to 400, around every window end up to 4000 and at geometric prefixes beyond. Oracle: reference Manku-Motwani lossy counter + exact counts: n(), add's return value, query(0) == reference table, no miss (true >= s*n and > eps*n), no intruder (true < (s-eps)*n), table size <= width*(H(ceil(n/width))+1). Non-trivial: the stream crosses >= 2 window ends and an element was pruned and later re-added. Distinct = (width, stream). evaluations = cases + prefixes checked.");
     ctx.assume("float guard band 1e-9*n on the s*n, epsilon*n and (s-epsilon)*n comparisons");
     ctx.run_regressions(&[&C09]);
     let t = ctx.tier;
@@ -310,7 +325,7 @@ pub fn run(ctx: &Ctx) {
             exhaustive(ctx, 4, 10, 1..=5);
         }
     }
-    ctx.run_random(&C09, t.pick(40_000, 600_000), move || strategy(t));
+    ctx.run_random(&C09, t.pick(40_000, 600_000), move || prop_oneof![120 => strategy(t), 1 => late_heavy_strategy()].boxed());
     ctx.require_class("prefixes", "pruned_and_readded", 0.2);
     ctx.require_class("prefixes", "boundary_adversary", 0.1);
     if ctx.tier == Tier::Thorough && !ctx.failed() {
